@@ -191,7 +191,7 @@ var Locations = []string{"aa", "bb", "cc"}
 // alphabet under some byte transformation a key builder or a lookup could apply
 // by mistake, or looks like another part of a key.
 const (
-	LocUp  = "AA"         // ASCII upper case twin of aa
+	LocUp  = "AA"       // ASCII upper case twin of aa
 	LocHi  = `\341\341` // aa with the high bits set; not valid UTF-8
 	LocNul = `\000\001` // leading NUL: twin of "untagged" (\000\000) when only the first byte is looked at, and the byte that ends a name
 	LocSep = `\003\054` // a byte that reads as a label length, and the field separator ','
